@@ -377,3 +377,81 @@ theorem wpDrain_encode (parseKV : Bytes → Option Bytes) (tags flds wf : Bytes)
   simp [h1, h2]
 
 end Logrange.WireRT
+
+/-! ## an acknowledged packet is a strictly well-formed packet (after the repair of F20b/F20c: `init` validates) -/
+namespace Logrange.WireRT
+
+theorem wpFields_eq' (wf ef : Bytes) : wpFields wf ef = wf ++ ef := by
+  have h1 : Generated.C01.concatReceiverFirst = true := by decide
+  have h2 : Generated.C01.wpConcatReceiverIsWriteLevel = true := by decide
+  simp [wpFields, concat, h1, h2]
+
+theorem decodeEvent_ok_len (buf : Bytes) (k : Nat) (e : WEvent) (h : decodeEvent buf = .ok (k, e)) :
+    8 ≤ buf.length ∧ 8 ≤ k := by
+  unfold decodeEvent u64 at h
+  by_cases hl : buf.length < 8
+  · simp [hl] at h
+  · simp only [hl, ↓reduceIte] at h
+    repeat' split at h
+    all_goals first
+      | (simp at h; done)
+      | (simp only [Out.ok.injEq, Prod.mk.injEq] at h; exact ⟨by omega, by omega⟩)
+
+theorem strictLoop_len (parseKV : Bytes → Option Bytes) (wf : Bytes) : ∀ (n : Nat) (rest : Bytes) (es : List Event),
+    strictLoop parseKV wf n rest = some es → n ≤ rest.length := by
+  intro n
+  induction n with
+  | zero => intro rest es _; omega
+  | succ n ih =>
+    intro rest es h
+    simp only [strictLoop] at h
+    split at h
+    · rename_i k we hd
+      split at h
+      · rename_i ef hp
+        cases hs : strictLoop parseKV wf n (rest.drop k) with
+        | none => simp [hs] at h
+        | some es1 =>
+          have := ih _ _ hs
+          have ⟨h8, hk⟩ := decodeEvent_ok_len rest k we hd
+          simp only [List.length_drop] at this
+          omega
+      · simp at h
+    · simp at h
+
+/-- what the validation pass accepted is exactly what the iterator then hands over -/
+theorem strict_implies_loop (parseKV : Bytes → Option Bytes) : ∀ (n : Nat) (it : WpIter) (es : List Event) (fuel : Nat),
+    strictLoop parseKV it.flds n it.rest = some es → it.read = false → it.cur + n = it.recs → n < fuel →
+    wpLoop parseKV fuel it = .ok es := by
+  intro n
+  induction n with
+  | zero =>
+    intro it es fuel h hr hc hf
+    cases fuel with
+    | zero => omega
+    | succ f =>
+      have : it.cur ≥ it.recs := by omega
+      simp only [strictLoop, Option.some.injEq] at h
+      simp [wpLoop, wpGet, hr, this, ← h]
+  | succ n ih =>
+    intro it es fuel h hr hc hf
+    cases fuel with
+    | zero => omega
+    | succ f =>
+      have hlt : ¬ it.cur ≥ it.recs := by omega
+      simp only [strictLoop] at h
+      split at h
+      · rename_i k we hd
+        split at h
+        · rename_i ef hp
+          cases hs : strictLoop parseKV it.flds n (it.rest.drop k) with
+          | none => simp [hs] at h
+          | some es1 =>
+            simp only [hs, Option.map_some, Option.some.injEq] at h
+            simp only [wpLoop, wpGet, hr, hlt, hd, hp, Bool.false_eq_true, ↓reduceIte, Option.getD_some, wpFields_eq']
+            rw [ih _ es1 f (by simpa [wpNext] using hs) (by simp [wpNext]) (by simp [wpNext]; omega) (by omega)]
+            simp [← h]
+        · simp at h
+      · simp at h
+
+end Logrange.WireRT
